@@ -164,7 +164,7 @@ class ProtoImporter:
                 # Import a VLSIR primitive to an ideal element, and convert its parameters
                 target = import_vlsir_primitive(ref.external)
                 remapped_params = import_primitive_params(target, params)
-                params = target.Params(**remapped_params)
+                params = target.Params(**unset_params(target, remapped_params))
 
             elif ref.external.domain in (
                 "hdl21.primitives",
@@ -172,7 +172,7 @@ class ProtoImporter:
             ):
                 # Retrieve the Primitive from `hdl21.primitives`, and convert its parameters
                 target = import_hdl21_primitive(ref.external)
-                params = target.Params(**params)
+                params = target.Params(**unset_params(target, params))
 
             else:  # Externally-defined `ExternalModule`
                 # These must be declared in our `Package` being imported. Look up its header-info from `ext_modules`.
@@ -385,6 +385,16 @@ def import_prefixed(vpref: vlsir.Prefixed) -> Prefixed:
         raise ValueError(f"Invalid Parameter Type: `{ptype}`")
 
     return Prefixed(number=number, prefix=prefix)
+
+
+def unset_params(target: Primitive, params: Dict[str, Any]) -> Dict[str, Any]:
+    """`None`-valued parameters are not exported. Parameters of `target` which are absent from `params`
+    hence were `None`: set them so explicitly, rather than leaving them to take their default values."""
+    rv = dict(params)
+    for name, param in target.Params.__params__.items():
+        if name not in rv and type(None) in getattr(param.dtype, "__args__", ()):
+            rv[name] = None
+    return rv
 
 
 def import_primitive_params(
